@@ -108,7 +108,7 @@ CHECKS['C14'] = dict(
           '(regenerated MRO scan, multiple-inheritance probe) and the remote=True-exactly-once log are checked on the implementation.'),
     design='12.6',
     note=('Residual known finding (with patches only, see C15): a directly held child whose first occurrence lies inside an earlier attribute '
-          'of the same holder. The sufficient syntactic condition for announced_structurally is not a theorem (it is computed per graph). '
+          'of the same holder. A syntactic sufficient condition is proved (Pickle/Announce.v: tidy g -> announced_structurally g; C14_tidy_graphs_restore); attribute references to objects other than the holder itself or its ancestors are covered by the decidable per-graph condition only. '
           'Non-dict states, __slots__-only classes and the byte level of pickle are exercised or out of scope, not modelled. The model is '
           'hand-written and pinned to state.py / remote_reduce by tools/pin.py. ' + COMMON_NOTE),
     technique='machine-checked proof (Coq, structural induction over all graphs) + refutation witness + differential correspondence on both dump and load side',
